@@ -1,0 +1,161 @@
+//! `string.rs` (`rewrite_string`, `break_string`, `detect_url`) and the comment wrapping of
+//! `comment.rs` that uses it, with every argument given as plain data.
+
+use unicode_segmentation::UnicodeSegmentation;
+
+use crate::comment::verif_wrap as cw;
+use crate::config::Config;
+use crate::shape::{Indent, Shape};
+use crate::string::{StringFormat, verif_local as sl};
+
+/// A `StringFormat` without its `Config`; `shape` is (width, block_indent, alignment, offset).
+#[derive(Clone, Debug)]
+pub struct PlainFormat {
+    pub opener: String,
+    pub closer: String,
+    pub line_start: String,
+    pub line_end: String,
+    pub shape: (usize, usize, usize, usize),
+    pub trim_end: bool,
+}
+
+fn shape(x: (usize, usize, usize, usize)) -> Shape {
+    Shape {
+        width: x.0,
+        indent: Indent {
+            block_indent: x.1,
+            alignment: x.2,
+        },
+        offset: x.3,
+    }
+}
+
+/// `UnicodeSegmentation::graphemes(text, false)` as `rewrite_string` takes them.
+pub fn graphemes(text: &str) -> Vec<&str> {
+    UnicodeSegmentation::graphemes(text, false).collect()
+}
+
+/// `rewrite_string(orig, &fmt, newline_max_chars)`.
+pub fn rewrite_string(
+    orig: &str,
+    f: &PlainFormat,
+    config: &Config,
+    newline_max_chars: usize,
+) -> Option<String> {
+    let fmt = StringFormat {
+        opener: &f.opener,
+        closer: &f.closer,
+        line_start: &f.line_start,
+        line_end: &f.line_end,
+        shape: shape(f.shape),
+        trim_end: f.trim_end,
+        config,
+    };
+    crate::string::rewrite_string(orig, &fmt, newline_max_chars)
+}
+
+/// `rewrite_string` with `StringFormat::new(shape, config)`: the format of a string literal.
+pub fn rewrite_string_lit(
+    orig: &str,
+    shape_: (usize, usize, usize, usize),
+    config: &Config,
+    newline_max_chars: usize,
+) -> Option<String> {
+    let fmt = StringFormat::new(shape(shape_), config);
+    crate::string::rewrite_string(orig, &fmt, newline_max_chars)
+}
+
+/// `break_string(max_width, trim_end, line_end, graphemes(input))`:
+/// (`E` EndOfInput | `L` LineEnd | `F` EndWithLineFeed, line, length read in graphemes).
+pub fn break_string(
+    max_width: usize,
+    trim_end: bool,
+    line_end: &str,
+    input: &str,
+) -> (char, String, usize) {
+    sl::break_string_plain(max_width, trim_end, line_end, &graphemes(input))
+}
+
+/// `detect_url(graphemes(input), index)`.
+pub fn detect_url(input: &str, index: usize) -> Option<usize> {
+    sl::detect_url_plain(&graphemes(input), index)
+}
+
+/// `is_valid_linebreak(graphemes(input), pos)`.
+pub fn is_valid_linebreak(input: &str, pos: usize) -> bool {
+    sl::is_valid_linebreak_plain(&graphemes(input), pos)
+}
+
+/// `trim_end_but_line_feed(trim_end, result)`.
+pub fn trim_end_but_line_feed(trim_end: bool, result: &str) -> String {
+    sl::trim_end_but_line_feed_plain(trim_end, result.to_owned())
+}
+
+/// (`is_whitespace`, `is_new_line`, `is_punctuation`, `not_whitespace_except_line_feed`,
+/// `graphemes_width`) of one grapheme.
+pub fn grapheme_class(g: &str) -> (bool, bool, bool, bool, usize) {
+    sl::grapheme_class(g)
+}
+
+/// `MIN_STRING`.
+pub fn min_string() -> usize {
+    sl::min_string()
+}
+
+/// `rewrite_comment(orig, block_style, shape, config)`.
+pub fn rewrite_comment(
+    orig: &str,
+    block_style: bool,
+    shape_: (usize, usize, usize, usize),
+    config: &Config,
+) -> Option<String> {
+    crate::comment::rewrite_comment(orig, block_style, shape(shape_), config).ok()
+}
+
+/// `rewrite_comment_inner(orig, block_style, comment_style(orig, false), shape, config,
+/// is_doc_comment)`.
+pub fn rewrite_comment_inner(
+    orig: &str,
+    block_style: bool,
+    shape_: (usize, usize, usize, usize),
+    config: &Config,
+    is_doc_comment: bool,
+) -> Option<String> {
+    cw::rewrite_comment_inner_plain(orig, block_style, shape(shape_), config, is_doc_comment)
+}
+
+/// `comment_style(orig, normalize_comments)`: `d` DoubleSlash, `t` TripleSlash, `o` Doc,
+/// `s` SingleBullet, `b` DoubleBullet, `e` Exclamation, `c` Custom (with its opener).
+pub fn comment_style(orig: &str, normalize_comments: bool) -> (char, String) {
+    cw::style_letter(crate::comment::comment_style(orig, normalize_comments))
+}
+
+/// `left_trim_comment_line(line, &comment_style(style_of, false))`.
+pub fn left_trim_comment_line(line: &str, style_of: &str) -> (String, bool) {
+    cw::left_trim_comment_line_plain(line, style_of)
+}
+
+/// `has_url(s)` of comment.rs.
+pub fn has_url(s: &str) -> bool {
+    cw::has_url_plain(s)
+}
+
+/// `is_table_item(s)`.
+pub fn is_table_item(s: &str) -> bool {
+    cw::is_table_item_plain(s)
+}
+
+/// `trim_end_unless_two_whitespaces(s, is_doc_comment)`.
+pub fn trim_end_unless_two_whitespaces(s: &str, is_doc_comment: bool) -> String {
+    cw::trim_end_unless_two_whitespaces_plain(s, is_doc_comment)
+}
+
+/// `ItemizedBlock::get_marker_length(trimmed)`.
+pub fn marker_length(trimmed: &str) -> Option<usize> {
+    cw::marker_length(trimmed)
+}
+
+/// `CommentRewrite::join_block(s, sep)`.
+pub fn join_block(s: &str, sep: &str) -> String {
+    cw::join_block(s, sep)
+}
